@@ -240,18 +240,18 @@ def audit_types(w):
 def run(rep):
     w = rep.world('dev')
     c = w.yarel
-    r0(rep, w)
-    r1(rep, w)
-    r1_support(rep, w)
-    r2(rep, w)
-    r6(rep, w)
-    r4(rep, w)
+    rep.guard(r0, rep, w)
+    rep.guard(r1, rep, w)
+    rep.guard(r1_support, rep, w)
+    rep.guard(r2, rep, w)
+    rep.guard(r6, rep, w)
+    rep.guard(r4, rep, w)
     import c01_flow
-    c01_flow.r3(rep, w)
-    c01_flow.r5(rep, w)
+    rep.guard(c01_flow.r3, rep, w)
+    rep.guard(c01_flow.r5, rep, w)
     import c06
-    c06.s1(rep, w)     # an open upvalue left pointing into a discarded stack region is a dangling pointer: the closure reads freed memory
-    c06.s6(rep, w)
+    rep.guard(c06.s1, rep, w)     # an open upvalue left pointing into a discarded stack region is a dangling pointer: the closure reads freed memory
+    rep.guard(c06.s6, rep, w)
     if rep.tier == 'thorough':
         import witness
         witness.run_witnesses(rep, 'C01', ['W1StringConstructorIsPrivate', 'W3RootAsMutIsUnsafe', 'W4GcDanglingIsPrivate', 'W5HeapIsPrivate', 'W6GcIsReadOnly'])
